@@ -19,6 +19,7 @@ ap.add_argument("--no-suite", action="store_true")
 ap.add_argument("--checks")
 ap.add_argument("--tier", default="quick")
 ap.add_argument("--only")
+ap.add_argument("--suffix", default="")
 a = ap.parse_args()
 PY = "/venv/bin/python"
 
@@ -75,13 +76,13 @@ for tag in ("A", "B"):
         meta["needs_to_manifest_and_notes"] = open(notes).read()[:3500] if os.path.exists(notes) else ""
         confirmed = rc0 == 0 and rc1 != 0 and ("missing_from_stable 0" in meta.get("suite", "missing_from_stable 0"))
         meta["confirmed"] = confirmed
-        out = os.path.join("/verif/seeded", f"{a.pid}-{tag}")
+        out = os.path.join("/verif/seeded", f"{a.pid}-{tag}{a.suffix}")
         if confirmed:
             os.makedirs(out, exist_ok=True)
             shutil.copy(patch, os.path.join(out, "patch.diff"))
             shutil.copy(demo, os.path.join(out, "demo.py"))
             json.dump(meta, open(os.path.join(out, "meta.json"), "w"), indent=1)
-        print(f"{a.pid}-{tag}: confirmed={confirmed} demo {rc0}->{rc1} suite={meta.get('suite','skipped')!r} "
+        print(f"{a.pid}-{tag}{a.suffix}: confirmed={confirmed} demo {rc0}->{rc1} suite={meta.get('suite','skipped')!r} "
               + " ".join(f"{c}:rc={v['rc']}" for c, v in meta["checks"].items()))
         for c, v in meta["checks"].items():
             for l in v["lines"][:4]:
